@@ -77,7 +77,7 @@ def tp_monotone(mode, n, policy, with_past=False):
     return Out(parts=parts, obs={"tight": [len(x) for x in out["tight"]], "loose": [len(x) for x in out["loose"]]})
 
 
-def ap_monotone(mode, n, ngt_extra, aph):
+def ap_monotone(mode, n, ngt_extra, aph, nested=0):
     tight, loose = _thresholds(mode, 1)
     results, rows = _results(n, [CAR, UNK], [None, CAR], "default")
     ngt = sum(1 for _, g in rows if g is not None) + ngt_extra
@@ -89,8 +89,13 @@ def ap_monotone(mode, n, ngt_extra, aph):
             return weights[index[id(object_result)]]
 
     metric = AbstractAph() if aph else TPMetricsAp()
-    ap_t = AP.Ap(metric, list(results), ngt, [CAR], MODES[mode], [tight[0]])
-    ap_l = AP.Ap(metric, list(results), ngt, [CAR], MODES[mode], [loose[0]])
+    if nested:  # scene-level input (per-frame lists), the *same* lists evaluated under both thresholds, as in a sweep
+        feed = [[], list(results[:nested]), list(results[nested:])]
+        ap_t = AP.Ap(metric, feed, ngt, [CAR], MODES[mode], [tight[0]])
+        ap_l = AP.Ap(metric, feed, ngt, [CAR], MODES[mode], [loose[0]])
+    else:
+        ap_t = AP.Ap(metric, list(results), ngt, [CAR], MODES[mode], [tight[0]])
+        ap_l = AP.Ap(metric, list(results), ngt, [CAR], MODES[mode], [loose[0]])
     parts = {"ap_non_decreasing_when_loosened": ap_t.ap <= ap_l.ap + 1e-9,
              "cumulative_tp_non_decreasing": L.And(*[a <= b + 1e-9 for a, b in zip(ap_t.tp_list, ap_l.tp_list)])}
     return Out(parts=parts, obs={"tight": ap_t.ap, "loose": ap_l.ap})
@@ -123,6 +128,7 @@ def obligations(pid, tier):
     ap = [dict(mode=m, n=n, ngt_extra=e, aph=a) for m in (("center", "iou2d") if quick else ("center", "iou2d", "plane"))
           for n in ((1, 2, 3) if m == "center" else (1, 2)) for e in (0, 1) for a in (False, True)
           if not (quick and n == 3 and a)]
+    ap += [dict(mode="center", n=n, ngt_extra=1, aph=a, nested=1) for n in (2, 3) for a in (False, True) if not (quick and n == 3 and a)]
     if not quick:
         ap += [dict(mode="center", n=4, ngt_extra=1, aph=False)]
     mp = [dict(mode=m, n=n) for m in (("center",) if quick else ("center", "iou2d")) for n in ((1, 2) if quick else (1, 2, 3))]
